@@ -22,6 +22,8 @@ type c03State struct {
 	errs     []string
 	views    []*c03View
 	nWriters int
+	grand    bool // batches also write a grandchild collection K<i>/G
+	syncRead bool // the reader issues a synchronous NotifyMerger between its snapshots
 }
 
 func atoiOr0(b []byte) int {
@@ -47,6 +49,10 @@ func (st *c03State) writer(i, batches int) func() {
 			b.Set([]byte(fmt.Sprintf("p%db", i)), v)
 			cb, _ := b.NewChildCollectionBatch(fmt.Sprintf("K%d", i), moss.BatchOptions{TotalOps: 2, TotalKeyValBytes: 16})
 			cb.Set([]byte("c"), v)
+			if st.grand {
+				gb, _ := cb.NewChildCollectionBatch("G", moss.BatchOptions{TotalOps: 2, TotalKeyValBytes: 16})
+				gb.Set([]byte("g"), v)
+			}
 			err = st.w.coll.ExecuteBatch(b, moss.WriteOptions{})
 			b.Close()
 			st.ev++
@@ -79,14 +85,25 @@ func (st *c03State) reader(n int, useGet bool) func() {
 					return atoiOr0(b)
 				}
 				m, pa, pb := get(fmt.Sprintf("m%d", i)), get(fmt.Sprintf("p%da", i)), get(fmt.Sprintf("p%db", i))
-				kc := 0
+				kc, kg := 0, 0
 				if cs, err := ss.ChildCollectionSnapshot(fmt.Sprintf("K%d", i)); err == nil && cs != nil {
 					b, _ := cs.Get([]byte("c"), moss.ReadOptions{})
 					kc = atoiOr0(b)
+					if st.grand {
+						if gs, err := cs.ChildCollectionSnapshot("G"); err == nil && gs != nil {
+							b, _ := gs.Get([]byte("g"), moss.ReadOptions{})
+							kg = atoiOr0(b)
+							gs.Close()
+						}
+					} else {
+						kg = kc
+					}
 					cs.Close()
+				} else if !st.grand {
+					kg = kc
 				}
-				parts = append(parts, fmt.Sprintf("w%d:%d/%d/%d/%d", i, m, pa, pb, kc))
-				if m == pa && pa == pb && pb == kc {
+				parts = append(parts, fmt.Sprintf("w%d:%d/%d/%d/%d/%d", i, m, pa, pb, kc, kg))
+				if m == pa && pa == pb && pb == kc && kc == kg {
 					v.seen[i] = m
 				} else {
 					v.seen[i] = -1
@@ -111,6 +128,9 @@ func (st *c03State) reader(n int, useGet bool) func() {
 			st.ev++
 			v.ended = st.ev
 			st.views = append(st.views, v)
+			if st.syncRead && k+1 < n {
+				st.w.coll.(interface{ NotifyMerger(string, bool) error }).NotifyMerger("reader", true)
+			}
 		}
 	}
 }
@@ -159,11 +179,11 @@ func (st *c03State) final(deadlock string) []Violation {
 	return out
 }
 
-func c03Program(name string, cfg Config, readers int) g2Program {
+func c03Program(name string, cfg Config, readers int, grand, syncRead bool) g2Program {
 	return g2Program{Name: name, Build: func() (*World, func() *Violation, func(string) []Violation) {
 		w := NewWorld(cfg, nil)
 		w.gateOff = true
-		st := &c03State{w: w, nWriters: 2}
+		st := &c03State{w: w, nWriters: 2, grand: grand, syncRead: syncRead}
 		if w.infra != "" {
 			return w, nil, st.final
 		}
@@ -180,11 +200,13 @@ func c03Program(name string, cfg Config, readers int) g2Program {
 func init() {
 	g2Programs["C03"] = func(tier string) []g2Program {
 		progs := []g2Program{
-			c03Program("two writers x 2 self-identifying batches (3 keys + child key), reader x 3 snapshots, in-memory, MaxPreMergerBatches=1", Config{Backing: "none", MinMergePct: 100, MaxPre: 1}, 3),
-			c03Program("same, store-backed (real Persist in the persister thread), CachePersisted", Config{Backing: "store", MinMergePct: 0.01, MaxPre: 1, CachePersisted: true}, 2),
+			c03Program("two writers x 2 self-identifying batches (3 keys + child key), reader x 3 snapshots, in-memory, MaxPreMergerBatches=1", Config{Backing: "none", MinMergePct: 100, MaxPre: 1}, 3, false, false),
+			c03Program("same, store-backed (real Persist in the persister thread), CachePersisted", Config{Backing: "store", MinMergePct: 0.01, MaxPre: 1, CachePersisted: true}, 2, false, false),
+			c03Program("batches also write a grandchild collection, MaxPreMergerBatches=2 (two unmerged batches side by side), in-memory", Config{Backing: "none", MinMergePct: 100, MaxPre: 2}, 3, true, false),
+			c03Program("reader x 4 snapshots with a synchronous NotifyMerger between them, MaxPreMergerBatches=1, in-memory", Config{Backing: "none", MinMergePct: 100, MaxPre: 1}, 4, false, true),
 		}
 		if tier == "thorough" {
-			progs = append(progs, c03Program("same, store-backed with forced compaction, DeferredSort", Config{Backing: "store", MinMergePct: 100, MaxPre: 1, Concern: 2, DeferredSort: true}, 2))
+			progs = append(progs, c03Program("store-backed with forced compaction, DeferredSort, grandchild", Config{Backing: "store", MinMergePct: 100, MaxPre: 1, Concern: 2, DeferredSort: true}, 2, true, false))
 		}
 		return progs
 	}
